@@ -35,10 +35,20 @@ type mangler struct {
 }
 
 func newMangler() *mangler {
-	return &mangler{
+	m := &mangler{
 		names: make(map[string]map[string]string),
 		taken: make(map[string]struct{}),
 	}
+	// The names of the native primitive types are taken: a user-defined type
+	// called String (or I32, Binary, ...) must not share its helpers with
+	// those of the primitive type.
+	for _, spec := range []compile.TypeSpec{
+		&compile.BoolSpec{}, &compile.I8Spec{}, &compile.I16Spec{}, &compile.I32Spec{},
+		&compile.I64Spec{}, &compile.DoubleSpec{}, &compile.StringSpec{}, &compile.BinarySpec{},
+	} {
+		m.taken[goCase(spec.ThriftName())] = struct{}{}
+	}
+	return m
 }
 
 func (m *mangler) MangleType(spec compile.TypeSpec) string {
